@@ -629,17 +629,22 @@ def replay(w):
         bank = _synthetic_bank(D, start, taps, flags['is_real'])
         c = STFTFrameComputer(bank, frame_length_ms=D + 0.5, frame_shift_ms=3.5, frame_style='causal', include_energy=flags['include_energy'],
                               pad_to_nearest_power_of_two=False, window_function='hamming', use_log=flags['use_log'], use_power=flags['use_power'])
-        xs = rng.randn(D)
-        got = c.compute_full(xs)[0]
-        want = []
-        if flags['include_energy']:
-            e = float(np.inner(xs, xs) / D)
-            e = e if flags['use_power'] else e ** 0.5
-            want.append(np.log(max(e, 1e-5)) if flags['use_log'] else e)
-        v = brute_force(xs, c._window, D, start, taps, flags['is_real'], flags['use_power'])
-        want.append(np.log(max(v, 1e-5)) if flags['use_log'] else v)
-        d = float(np.abs(np.array(want) - got).max()) if len(want) == len(got) else float('inf')
-        return {'reproduced': d > 1e-9, 'detail': 'flags %s: got %s want %s' % (flags, got, want)}
+        base = rng.randn(D)
+        worst = (0.0, None)
+        for scale in (1.0, 1e-2, 1e-3, 1e-4, 0.0):     # loud, faint (around the log floor) and silent frames
+            xs = base * scale
+            got = c.compute_full(xs)[0]
+            want = []
+            if flags['include_energy']:
+                e = float(np.inner(xs, xs) / D)
+                e = e if flags['use_power'] else e ** 0.5
+                want.append(np.log(max(e, 1e-5)) if flags['use_log'] else e)
+            v = brute_force(xs, c._window, D, start, taps, flags['is_real'], flags['use_power'])
+            want.append(np.log(max(v, 1e-5)) if flags['use_log'] else v)
+            d = float(np.abs(np.array(want) - got).max()) if len(want) == len(got) else float('inf')
+            if d > worst[0]:
+                worst = (d, 'scale %g flags %s: got %s want %s' % (scale, flags, got, want))
+        return {'reproduced': worst[0] > 1e-9, 'detail': worst[1] or 'matches at all signal levels'}
     return {'reproduced': False, 'detail': 'no concrete replay for %s' % k}
 
 
